@@ -87,6 +87,31 @@ def witness_corpus(pid, sources, jobs=16):
                 skipped.append(f"{kind}:{name}")
                 continue
             work.append((kind, (pid, name, overrides)))
+    # committed corpora: seeded changes this property's check is recorded to report, and behaviour-preserving
+    # refactorings (must stay silent); replayed in memory on the current sources when they still apply
+    from . import udiff
+    from .report import VERIF
+    import glob
+    for d in sorted(glob.glob(os.path.join(VERIF, "seeded", "*", "patch.diff"))):
+        try:
+            meta = json.load(open(os.path.join(os.path.dirname(d), "meta.json")))
+        except Exception:
+            continue
+        if pid not in meta.get("checks_reporting_violation", []):
+            continue
+        name = "seeded:" + os.path.basename(os.path.dirname(d))
+        ov = udiff.apply(sources, open(d, encoding="utf-8").read())
+        if ov is None:
+            skipped.append(name)
+        else:
+            work.append(("catch", (pid, name, ov)))
+    for d in sorted(glob.glob(os.path.join(VERIF, "refactorings", "*", "patch.diff"))):
+        name = "refactoring:" + os.path.basename(os.path.dirname(d))
+        ov = udiff.apply(sources, open(d, encoding="utf-8").read())
+        if ov is None:
+            skipped.append(name)
+        else:
+            work.append(("silent", (pid, name, ov)))
     results = []
     if work:
         import multiprocessing as mp
